@@ -72,6 +72,11 @@ CHECKS = {
    "Trusted: the harness' SAM formatter. NaN and the one-base-quality-9 spelling ambiguity of SAM are outside the domain.",
    "property-based testing (rapid): round trip + differential against an independent formatter + SAM/BAM metamorphic agreement",
    "DESIGN.md 3/C06"),
+ "C07": ("exploration",
+   "Generated-input search: (a) rapid API-built headers are serialised to text and binary, parsed back and re-serialised (identical bytes, equal getter values, binary layout equal to an independent SAM 4.2 encoder); (b) stateful histories of up to 25 add/remove/rename/clone/merge/UnmarshalText/re-parse operations over up to 4 live headers with colliding names; after every step every live header must have ids equal to indices, unique names, still round-trip, and merge links must point at references the merged header owns with the same name and length; panics in documented calls are violations.",
+   "Success or failure of an individual edit is not judged, only the reachable state. URIs are limited to the schemes the parser preserves.",
+   "property-based testing (rapid): round trip + stateful histories with an invariant checked after every step",
+   "DESIGN.md 3/C07"),
 }
 
 NOT_YET = {}
